@@ -34,6 +34,8 @@ mod a1;
 mod a2;
 #[path = "c07_a3.rs"]
 mod a3;
+#[path = "c07_a4.rs"]
+mod a4;
 
 // ---------------------------------------------------------------------------
 // shared machinery
@@ -411,8 +413,10 @@ pub fn run(tier: Tier) -> ! {
     let t2 = t0.elapsed().as_secs_f64();
     let mut r3 = a3::sweep(tier);
     let t3 = t0.elapsed().as_secs_f64();
+    let mut r4 = a4::sweep(tier);
+    let t4 = t0.elapsed().as_secs_f64();
 
-    for (name, r) in [("A1", &r1), ("A2", &r2), ("A3", &r3)] {
+    for (name, r) in [("A1", &r1), ("A2", &r2), ("A3", &r3), ("A4", &r4)] {
         if let Some(m) = &r.machinery {
             ctx.machinery(format!("{name}: {m}"));
         }
@@ -420,6 +424,7 @@ pub fn run(tier: Tier) -> ! {
     report(&ctx, &mut r1);
     report(&ctx, &mut r2);
     report(&ctx, &mut r3);
+    report(&ctx, &mut r4);
     std::panic::set_hook(hook);
     for r in [&mut r1, &mut r2, &mut r3] {
         r.samples.sort_by_key(|v| v.to_string());
@@ -489,6 +494,16 @@ pub fn run(tier: Tier) -> ! {
                 missing.push(format!("A3 counter {k} is zero"));
             }
         }
+        for k in [
+            "a4:routed_to_the_owning_mount",
+            "a4:nested_mounts_both_matched_precedence_unchecked",
+            "a4:owner_has_a_sibling_sorting_below_the_separator",
+            "a4:unmatched_path_not_routed",
+        ] {
+            if r4.c.get(k) == 0 {
+                missing.push(format!("A4 counter {k} is zero"));
+            }
+        }
         if !missing.is_empty() {
             ctx.machinery(format!("vacuous exploration: {}", missing.join("; ")));
         }
@@ -497,11 +512,11 @@ pub fn run(tier: Tier) -> ! {
     // every state of the bounded space was executed (sizes computed independently
     // from the alphabets); anything else is a harness defect unless a failure
     // cut a case short
-    let exhaustive = r1.states == r1.expected_states && r2.states == r2.expected_states && r3.states == r3.expected_states;
+    let exhaustive = r1.states == r1.expected_states && r2.states == r2.expected_states && r3.states == r3.expected_states && r4.states == r4.expected_states;
     if !exhaustive && !ctx.has_violation() {
         ctx.machinery(format!(
-            "enumeration incomplete: A1 {}/{} A2 {}/{} A3 {}/{}",
-            r1.states, r1.expected_states, r2.states, r2.expected_states, r3.states, r3.expected_states
+            "enumeration incomplete: A1 {}/{} A2 {}/{} A3 {}/{} A4 {}/{}",
+            r1.states, r1.expected_states, r2.states, r2.expected_states, r3.states, r3.expected_states, r4.states, r4.expected_states
         ));
     }
     let lit = r2.c.get("trailing_slash_prefix:struct:behaves-as-literal");
@@ -511,19 +526,20 @@ pub fn run(tier: Tier) -> ! {
             "mount prefixes with a trailing '/' are normalised differently by the two mount kinds: the registry mount behaved as if the '/' were trimmed in {trim} configurations (\"/a/\" receives /a, /a/, /a/b), the struct mount took it literally in {lit} configurations (\"/a/\" receives only /a/ and /a//...; /a/b is not routed to it). The property does not specify this; both are accepted"
         ));
     }
-    let states = r1.states + r2.states + r3.states;
-    let transitions = r1.transitions + r2.transitions + r3.transitions;
+    let states = r1.states + r2.states + r3.states + r4.states;
+    let transitions = r1.transitions + r2.transitions + r3.transitions + r4.transitions;
     let coverage = json!({
         "states": states,
         "transitions": transitions,
         "traces_validated_against_impl": transitions,
         "samples": samples.take(),
         "exhaustive": exhaustive,
-        "rule": "A1: every (handler kind, query of that kind, middleware configuration, body-format code, body) is dispatched through handle, handle_with_ctx and handle_view at buffer offsets 0..7 and the canonical framed responses are compared; A2: every (registration order, registry prefix, struct prefix, exact path) router is asked for every request path and compared with a reference router; A3: every remaining path of the bound is sent to a recording RepeStruct under three mounts and compared with an independent RFC 6901 tokenizer. states = distinct (configuration, request) pairs; transitions = handler invocations (or Router::get lookups answering None) compared with the oracle",
+        "rule": "A1: every (handler kind, query of that kind, middleware configuration, body-format code, body) is dispatched through handle, handle_with_ctx and handle_view at buffer offsets 0..7 and the canonical framed responses are compared; A2: every (registration order, registry prefix, struct prefix, exact path) router is asked for every request path and compared with a reference router; A3: every remaining path of the bound is sent to a recording RepeStruct under three mounts and compared with an independent RFC 6901 tokenizer; A4: every ordered selection of 2..3 mounts (structs, registries, mixes) over prefixes that are one another's prefix plus a byte below / above '/' or nested, asked for every request path: a path goes to a mount that owns it (prefix equal or extended at a '/' boundary) with exactly the remainder, a path nobody owns is not routed. states = distinct (configuration, request) pairs; transitions = handler invocations (or Router::get lookups answering None) compared with the oracle",
         "bound": {
             "A1": a1::bound(&r1),
             "A2": a2::bound(tier),
             "A3": a3::bound(tier, &r3),
+            "A4": a4::bound(tier),
         },
         "alphabet": {
             "body_formats": a1::FORMATS,
@@ -535,6 +551,7 @@ pub fn run(tier: Tier) -> ! {
             "A1": {"states": r1.states, "transitions": r1.transitions, "wall_s": t1},
             "A2": {"states": r2.states, "transitions": r2.transitions, "wall_s": t2 - t1},
             "A3": {"states": r3.states, "transitions": r3.transitions, "wall_s": t3 - t2},
+            "A4": {"states": r4.states, "transitions": r4.transitions, "wall_s": t4 - t3},
         },
         "nonvacuity": {
             "A1_requests_per_handler_kind": r1.c.with_prefix("kind:"),
@@ -542,6 +559,7 @@ pub fn run(tier: Tier) -> ! {
             "A1": r1.c.json(),
             "A2": r2.c.json(),
             "A3": r3.c.json(),
+            "A4": r4.c.json(),
         },
     });
     ctx.finish(
@@ -552,7 +570,7 @@ pub fn run(tier: Tier) -> ! {
             "all middleware are forwarding (call next.run(req) once with the unchanged request); short-circuiting middleware is outside the statement",
             "request paths are JSON pointers (empty or starting with '/'); paths without a leading '/' are not enumerated",
             "a mount prefix with a trailing '/' may be taken literally or with the '/' trimmed (the statement does not say which); the mount must behave consistently as one of the two over all request paths",
-            "precedence between a registry mount and a struct mount that both match is not checked",
+            "precedence between a registry mount and a struct mount that both match is not checked, nor between nested mounts of one kind (A4)",
             "malformed '~' escapes are outside the quantifier and not generated",
             "Registry semantics of the handed-down pointer are C14's; here the mounted answer is compared with Registry::dispatch of (path minus prefix) on an identical registry",
         ],
@@ -573,6 +591,7 @@ fn replay_inner(case: &Value) -> Result<(), String> {
         Some("A1") => a1::replay(case, &mut t),
         Some("A2") => a2::replay(case, &mut t),
         Some("A3") => a3::replay(case, &mut t),
+        Some("A4") => a4::replay(case, &mut t),
         _ => Err("case has no known `space`".to_string()),
     };
     r?;
